@@ -13,6 +13,7 @@ case "$CONFIG" in
   mocks)      FLAGS="--features fragile,mock-core,mock-std,mock-futures-io-0-3,mock-tokio-1,mock-embedded-hal-1" ;;
   nostd-spin) FLAGS="--no-default-features --features critical-section,spin-lock" ;;
   nostd)      FLAGS="--no-default-features --features critical-section" ;;
+  full)       FLAGS="--features critical-section,spin-lock,fragile,mock-core,mock-std,mock-futures-io-0-3,mock-tokio-1,mock-embedded-hal-1" ;;
   *) echo "unknown config $CONFIG" >&2; exit 2 ;;
 esac
 mkdir -p "$OUT"
